@@ -238,6 +238,11 @@ func chunkRange(req *http.Request) (start, end int64, _ error) {
 		}
 	}
 
+	if rangeOK && start == 0 && end == 0 && req.ContentLength == 1 {
+		// "0-0" denotes both the empty range and the range holding
+		// just the first byte; the content length tells them apart.
+		end = 1
+	}
 	if rangeOK && req.ContentLength >= 0 {
 		rangeLength := end - start
 		if rangeLength != req.ContentLength {
